@@ -248,7 +248,7 @@ func validateChargingDataCreate(chargingData models.ChfConvergedChargingCharging
 		return fmt.Errorf("nfConsumerIdentification is missing")
 	}
 	if plmnId := nfId.NFPLMNID; plmnId != nil {
-		if len(plmnId.Mcc) != 3 || (len(plmnId.Mnc) != 2 && len(plmnId.Mnc) != 3) {
+		if !isDigits(plmnId.Mcc, 3, 3) || !isDigits(plmnId.Mnc, 2, 3) {
 			return fmt.Errorf("nFPLMNID is malformed")
 		}
 	}
@@ -260,6 +260,19 @@ func validateChargingDataCreate(chargingData models.ChfConvergedChargingCharging
 		}
 	}
 	return nil
+}
+
+// isDigits reports whether s consists of between min and max decimal digits.
+func isDigits(s string, min, max int) bool {
+	if len(s) < min || len(s) > max {
+		return false
+	}
+	for _, c := range s {
+		if c < '0' || c > '9' {
+			return false
+		}
+	}
+	return true
 }
 
 func (p *Processor) ChargingDataUpdate(
